@@ -477,9 +477,7 @@ def run_sequences(ctx, res, probe, model, env, sessions=None, ex_scripts=None):
     else:
         scripts = []      # replay of an ex script: re-run it literally
         for r in ex_scripts:
-            out = vlib.run_ex(vi, vlib.unhx(r['ex_script']), files={'f': vlib.unhx(r['file'])}, args=['f'], readback=['f'], timeout=30)
-            res.evaluations += 1
-            res.sample({'replayed_ex_script': r.get('script_text'), 'buffer': (out.files.get('f') or b'').decode('utf-8', 'replace')})
+            relib.replay_ex_item(res, vi, r)
     if scripts:
         relib.check_ex_sequences(res, vi, probe, model, scripts, env=env)
     if ex_scripts is None:
